@@ -2,3 +2,4 @@ import SnootyVerif.Properties.C09
 import SnootyVerif.Properties.C06
 import SnootyVerif.Properties.C07
 import SnootyVerif.Properties.C15
+import SnootyVerif.Properties.C20
